@@ -3,6 +3,7 @@ import ElfioVerif.Driver.C07
 import ElfioVerif.Driver.Load
 import ElfioVerif.Driver.C14
 import ElfioVerif.Driver.C08
+import ElfioVerif.Driver.C13
 open ElfioVerif.Drv
 
 def main (args : List String) : IO UInt32 := do
@@ -11,4 +12,5 @@ def main (args : List String) : IO UInt32 := do
   | ["load"] => mainLoop Load.runCase; return 0
   | ["c14"] => mainLoop C14.runCase; return 0
   | ["c08"] => mainLoop C08.runCase; return 0
+  | ["c13"] => mainLoop C13.runCase; return 0
   | _ => IO.eprintln "usage: driver <family>"; return 2
